@@ -67,8 +67,9 @@ try:
     res["confirmed"] = ok
     if ok:
         d = f"/verif/seeded/{name}"; os.makedirs(d, exist_ok=True)
-        shutil.copy(patch, f"{d}/patch.diff")
-        for x in demos: shutil.copy(x, d)
+        if os.path.realpath(out) != os.path.realpath(d):
+            shutil.copy(patch, f"{d}/patch.diff")
+            for x in demos: shutil.copy(x, d)
         m = {"property": pid, "summary": meta.get("summary"), "needs_to_manifest": meta.get("needs_to_manifest"),
              "files_changed": meta.get("files_changed"), "demo_place": demo_place, "demo_cmd": cmd,
              "confirmed_by_main": res, "what_was_run": "scratch worktree of /repo HEAD: git apply; go build (all packages except doc-only root, with and without -tags badger); pinned suite go test -vet=off -count=1 -json ./... compared with BASELINE stable_pass; demo with change (must fail) and after git apply -R (must pass)"}
